@@ -482,9 +482,22 @@ func typeOfJSONValue(v any) ExprType {
 		}
 		return &ArrayType{Elem: elem}
 	case map[string]any:
+		// Property names are case insensitive so keys of props must be in lower case. When two keys
+		// differ only in case, their types are merged. Keys are visited in sorted order so that the
+		// merged type does not depend on iteration order of the map.
+		keys := make([]string, 0, len(v))
+		for k := range v {
+			keys = append(keys, k)
+		}
+		sort.Strings(keys)
 		props := make(map[string]ExprType, len(v))
-		for k, v := range v {
-			props[k] = typeOfJSONValue(v)
+		for _, k := range keys {
+			t := typeOfJSONValue(v[k])
+			id := strings.ToLower(k)
+			if p, ok := props[id]; ok {
+				t = p.Merge(t)
+			}
+			props[id] = t
 		}
 		return NewStrictObjectType(props)
 	case nil:
